@@ -90,3 +90,72 @@ def build_element(desc):
     if 'p' in desc:
         return cls(desc['p'])
     return cls()
+
+
+def resolve_tags(m, tags):
+    """tags descriptor -> (mesh with tags, {'subdomains': {name: idx}, 'boundaries': {name: (facets, ori|None)}})
+
+    tags = {'subdomains': {name: [cell indices]},
+            'boundaries': {name: {'pool': 'boundary'|'interior'|'all', 'picks': [ints], 'ori': [ints]|None}}}
+    facet picks are data-relative: index = pick mod len(pool); duplicates removed."""
+    import dataclasses
+    from skfem.generic_utils import OrientedBoundary
+    sub = {}
+    for name, ix in (tags.get('subdomains') or {}).items():
+        sub[name] = np.array(sorted(set(int(i) % m.nelements for i in ix)), dtype=np.int32)
+    bnd = {}
+    res_b = {}
+    bf = m.boundary_facets()
+    inner = np.setdiff1d(np.arange(m.nfacets), bf)
+    for name, spec in (tags.get('boundaries') or {}).items():
+        pool = {'boundary': bf, 'interior': inner, 'all': np.arange(m.nfacets)}[spec['pool']]
+        if len(pool) == 0:
+            pool = bf
+        idx = []
+        for k in spec['picks']:
+            f = int(pool[int(k) % len(pool)])
+            if f not in idx:
+                idx.append(f)
+        idx = np.array(idx, dtype=np.int32)
+        if spec.get('ori') is not None:
+            ori = np.array([int(spec['ori'][i % len(spec['ori'])]) % 2 for i in range(len(idx))], dtype=np.int32)
+            ori[m.f2t[1, idx] == -1] = 0        # orientation 1 is only legal on interior facets
+            bnd[name] = OrientedBoundary(idx, ori)
+            res_b[name] = (idx, ori)
+        else:
+            bnd[name] = idx
+            res_b[name] = (idx, None)
+    m2 = dataclasses.replace(m, _boundaries=bnd or None, _subdomains=sub or None)
+    return m2, dict(subdomains=sub, boundaries=res_b)
+
+
+class LogCapture:
+    """captures warnings logged by skfem.mesh.* during a block"""
+
+    def __init__(self, name='skfem'):
+        import logging
+        self.logger = logging.getLogger(name)
+        self.records = []
+
+    def __enter__(self):
+        import logging
+        outer = self
+
+        class H(logging.Handler):
+            def emit(self, record):
+                outer.records.append(record.getMessage())
+        self.h = H(level=logging.WARNING)
+        self.old = self.logger.level
+        self.oldprop = self.logger.propagate
+        self.logger.setLevel(logging.WARNING)
+        self.logger.propagate = False
+        self.logger.addHandler(self.h)
+        return self
+
+    def __exit__(self, *a):
+        self.logger.removeHandler(self.h)
+        self.logger.setLevel(self.old)
+        self.logger.propagate = self.oldprop
+
+    def has(self, word):
+        return any(word in r for r in self.records)
